@@ -15,6 +15,7 @@ import (
 	"strings"
 	"sync"
 	"testing"
+	"time"
 
 	"github.com/whoisnian/glb/httpd"
 	"github.com/whoisnian/glb/logger"
@@ -74,10 +75,17 @@ type behaviour struct {
 	panicBefore bool // panic before writing anything
 	pstr        string
 	pint        int
+	// ctxDone: 1 = the incoming request's context is already cancelled (the client has hung up, the server is shutting
+	// down), 2 = the handler swaps in a request whose own deadline has passed (s.R = s.R.WithContext(...)) before it
+	// goes on. The statement is about what the handler does, not about the state of the request context.
+	ctxDone int
 }
 
 func (b behaviour) String() string {
 	s := fmt.Sprintf("status=%d body=%v", b.status, b.body)
+	if b.ctxDone > 0 {
+		s += []string{"", " (request context already cancelled)", " (handler swaps in a request past its deadline)"}[b.ctxDone]
+	}
 	if b.body {
 		s += []string{"", "(zero-length write)", "(zero-length, then data)", "(two writes)"}[b.bodyKind%4]
 	}
@@ -202,6 +210,11 @@ func handlerFor() httpd.HandlerFunc {
 		rq := s.R.Context().Value(ctxKey{}).(*request)
 		rq.seenID = strings.Clone(s.GetID())
 		b := rq.b
+		if b.ctxDone == 2 {
+			ctx, cancel := context.WithDeadline(s.R.Context(), time.Now().Add(-time.Second))
+			defer cancel()
+			s.R = s.R.WithContext(ctx)
+		}
 		if b.panicKind != pNone && b.panicBefore {
 			doPanic(b)
 		}
@@ -367,6 +380,7 @@ func genBatch(t *rapid.T) *batch {
 				bh.status = 202 // bodies are not allowed there; keep the generator simple
 			}
 		}
+		bh.ctxDone = rapid.SampledFrom([]int{0, 0, 0, 1, 2}).Draw(t, "requestContextDone")
 		bh.body = rapid.Bool().Draw(t, "body")
 		if bh.body {
 			bh.bodyKind = rapid.IntRange(0, 3).Draw(t, "bodyKind")
@@ -402,7 +416,13 @@ func runBatch(b *batch, realServer bool) string {
 			u = &url.URL{Path: rq.uri}
 		}
 		req := &http.Request{Method: rq.method, URL: u, RequestURI: rq.uri, RemoteAddr: rq.remote, Header: http.Header{}, Proto: "HTTP/1.1", ProtoMajor: 1, ProtoMinor: 1, Body: http.NoBody}
-		req = req.WithContext(context.WithValue(context.Background(), ctxKey{}, rq))
+		ctx := context.WithValue(context.Background(), ctxKey{}, rq)
+		if rq.b.ctxDone == 1 {
+			var cancel context.CancelFunc
+			ctx, cancel = context.WithCancel(ctx)
+			cancel()
+		}
+		req = req.WithContext(ctx)
 		rec := httptest.NewRecorder()
 		func() {
 			defer func() { rq.escaped = recover() }()
@@ -613,6 +633,9 @@ func TestBatches(t *testing.T) {
 			if rq.matched && rq.b.panicKind == pAbort {
 				ev.Label("history_contains_ErrAbortHandler")
 				continue
+			}
+			if rq.matched && rq.b.ctxDone > 0 {
+				ev.Label("request_context_done_while_the_handler_runs")
 			}
 			if rq.matched && rq.b.panicKind != pNone {
 				ev.Label("panic:" + panicKindNames[rq.b.panicKind])
